@@ -8,8 +8,8 @@ one() {
   cp /repo/*.go /repo/go.mod /repo/go.sum $D/; mkdir -p $SV/evidence; cp /verif/known_findings.json $SV/; cp -r /verif/golden $SV/
   if ! ( cd $D && git apply /verif/seeded/$m/patch.diff ) 2>/dev/null; then echo "$m APPLY-FAILED"; rm -rf $D $SV; return; fi
   /verif/bin/sodcheck -prop $prop -repo $D -verif $SV > $SV/out.txt 2>&1
-  if grep -q "^VIOLATION property=$prop" $SV/out.txt; then echo "$m caught $(grep -c '^  violated' $SV/out.txt)"; else echo "$m MISSED $(grep -E 'BROKEN|undecided' $SV/out.txt | head -2)"; fi
+  if grep -q "^VIOLATION property=$prop" $SV/out.txt; then echo "$m caught $(grep -c '^  violated' $SV/out.txt)"; else cp $SV/out.txt /tmp/seed_all_fail_$m.txt; echo "$m MISSED $(grep -E "BROKEN|undecided" $SV/out.txt | head -2)"; fi
   rm -rf $D $SV
 }
 export -f one
-ls /verif/seeded | xargs -P 8 -I{} bash -c 'one {}' | sort
+ls /verif/seeded | xargs -P 6 -I{} bash -c 'one {}' | sort
